@@ -56,3 +56,4 @@ Example c02_spec_on_witnesses :
               [RTable (Some "s", "a") (Some "p"); RTable (Some "s", "b") (Some "q")] false None))
   = "k{s.a,s.b}><default>.x.k;s.a.k><default>.x.k2".
 Proof. repeat split. Qed.
+Print Assumptions c02_spec_on_witnesses.
